@@ -2,6 +2,9 @@ import Pyunicorn.Lemmas.Circuit
 import Pyunicorn.Lemmas.CircuitPinv
 import Pyunicorn.Lemmas.CircuitLaws
 import Pyunicorn.Lemmas.CircuitConn
+import Pyunicorn.Lemmas.CircuitConnC
+import Pyunicorn.Lemmas.CircuitK
+import Pyunicorn.Lemmas.CircuitGRat
 import Pyunicorn.Generated.ArithC18
 /-! # C18 — Resistive-network quantities obey circuit laws
 
@@ -939,4 +942,360 @@ example (pinv : Nat → Mat → LMat) (r₁ r₂ : Mat) :
   rw [history_fresh]
   simp [specRun, step, State.init, State.update]
 
+/-! ## round 3
+
+* the executable connectivity test **decides** `CutConnected` (`bfs_connected_complete`,
+  `bfs_connected_iff`);
+* histories re-synchronise from *any* state: whatever a caller did to the object before
+  (edited the held array in place, reassigned `adjacency` — possibly with another number of nodes —
+  called `update_admittance` alone), after `update_resistances(r)` every query is answered as by a
+  fresh object (`history_resync`, `reassign_then_update_fresh`);
+* four more source expressions are regenerated and tied (`clusterTerm`: the product inside the
+  clustering loop, plain `*`; `admExpr`: `1./resistances[...]`; `effResBranch`; `vcfbGuard`);
+* the laws over **any field** of impedances about the polymorphic model `Model/CircuitK.lean`
+  (`impedance_*`), which the driver executes at the Gaussian rationals. -/
+
+theorem bfs_connected_complete (n : Nat) (adj : Adj) (res : Mat) (hN : IsNetwork n adj res)
+    (h : CutConnected n (admittance adj res)) : connected n adj = true :=
+  connected_complete n adj res hN h
+
+/-- the model's `connected` is exactly the hypothesis `CutConnected` of the circuit theorems -/
+theorem bfs_connected_iff (n : Nat) (adj : Adj) (res : Mat) (hN : IsNetwork n adj res) :
+    connected n adj = true ↔ CutConnected n (admittance adj res) :=
+  connected_iff n adj res hN
+
+example : connected 3 chainAdj = true :=
+  bfs_connected_complete 3 chainAdj unitRes chain_network chain_conn
+
+/-- the isolated node 2 makes the test fail, hence (by completeness) the network is not
+cut-connected: the theorems' hypothesis is refuted exactly when the driver refuses the input -/
+example : ¬ CutConnected 3 (admittance (fun i j => (i == 0 && j == 1) || (i == 1 && j == 0)) unitRes) := by
+  intro h
+  have := connected_complete' 3 _ unitRes h
+  revert this
+  decide
+
+/-- **Re-synchronisation.**  `update_resistances(r)` makes *any* state fresh — no invariant on the
+state before the call is needed — so the rest of every history is answered as by freshly
+constructed objects.  The state before may be arbitrarily inconsistent: resistances edited in
+place by the caller (`res` changed, `adm`/`R` not), `adjacency` reassigned (`n`, `adj` changed —
+`State.reassign`), a stale store. -/
+theorem history_resync (pinv : Nat → Mat → LMat) (s : State) (r : Mat) (ops : List Op) :
+    (run pinv s (.update r :: ops)).2 = none :: specRun pinv s.n s.adj r ops := by
+  have hf : Fresh pinv (s.update pinv r) := by
+    constructor <;> simp [State.update]
+  simp only [run, step]
+  rw [run_eq_fresh pinv ops _ hf]
+  simp [State.update]
+
+/-- `net.adjacency = A'` (the inherited `Network.adjacency` setter: number of nodes and links
+change, nothing of `ResNetwork` is recomputed) followed by `update_resistances(r)`: all later calls
+return what `ResNetwork(r, adjacency=A')` returns. -/
+theorem reassign_then_update_fresh (pinv : Nat → Mat → LMat) (s : State) (n' : Nat) (adj' : Adj)
+    (r : Mat) (ops : List Op) :
+    (run pinv (s.reassign n' adj') (.update r :: ops)).2 = none :: specRun pinv n' adj' r ops :=
+  history_resync pinv (s.reassign n' adj') r ops
+
+/-- … and the state after the two calls *is* the freshly constructed state, except that the store
+may be `none` in both -/
+theorem reassign_update_eq_init (pinv : Nat → Mat → LMat) (s : State) (n' : Nat) (adj' : Adj)
+    (r : Mat) :
+    (s.reassign n' adj').update pinv r = State.init pinv n' adj' r := by
+  simp [State.reassign, State.update, State.init]
+
+example (pinv : Nat → Mat → LMat) (r₁ r₂ : Mat) :
+    (run pinv ((State.init pinv 3 chainAdj r₁).reassign 4 chainAdj) [.update r₂, .admDeg 3]).2
+      = [none, some (admDegree 4 (admittance chainAdj r₂) 3)] := by
+  rw [reassign_then_update_fresh]
+  simp [specRun, step, State.init, State.update]
+
+section source_tie3
+open Pyunicorn.Generated.ArithC18
+
+/-- the body of the clustering triple loop is the regenerated source statement
+`dummy += admittance[i][j]*admittance[i][k]*admittance[j][k]` — plain products -/
+theorem clusteringLoop_matches_source (n : Nat) (adm : Mat) (i : Nat) :
+    (List.range n).foldl (fun dummy j =>
+        (List.range n).foldl (fun dummy k => dummy + adm i j * adm i k * adm j k) dummy) 0
+      = (List.range n).foldl (fun dummy j =>
+        (List.range n).foldl (fun dummy k => clusterTerm dummy (adm i j) (adm i k) (adm j k)) dummy) 0 := by
+  unfold clusterTerm; rfl
+
+theorem admittance_matches_source (adj : Adj) (res : Mat) (i j : Nat) :
+    admittance adj res i j = if adj i j then admExpr (res i j) else 0 := by
+  unfold admittance admExpr; rfl
+
+theorem effResBranch_matches_source (R : Mat) (a b : Nat) :
+    effRes R a b = if effResBranch (a : Int) (b : Int) = true then 0
+                   else effResExpr (R a a) (R a b) (R b a) (R b b) := by
+  unfold effRes effResBranch effResExpr
+  simp only [decide_eq_true_eq, Int.natCast_inj]
+
+/-- the `IndexError` guard of `vertex_current_flow_betweenness` is the model's `i < n` -/
+theorem vcfbGuard_matches_source (pinv : Nat → Mat → LMat) (s : State) (i : Nat) :
+    (step pinv s (.vcfb i)).2
+      = if vcfbGuard (i : Int) (s.n : Int) = true then none
+        else some (vcfbKernel s.n 1 1 s.adm s.R i) := by
+  unfold vcfbGuard
+  simp only [step, decide_eq_true_eq]
+  by_cases h : i < s.n
+  · simp [h]
+  · simp [h]
+
+end source_tie3
+
 end Pyunicorn.Circuit
+
+/-! ## round 3: complex impedances — the laws over any field, about `Model/CircuitK.lean` -/
+namespace Pyunicorn.CircuitK
+open Finset
+open Pyunicorn.Circuit (Adj degree chainAdj triAdj)
+
+variable {K : Type} [Field K]
+
+/-- **Admittive clustering over any field, without conjugation**: the loops of
+`local_admittive_clustering` (complex branch: `d = np.array(degree(), dtype=complex)`) evaluate
+`Σ_j Σ_k α_ij α_ik α_jk / (ad_i (d_i − 1))` with the product of the field. -/
+theorem impedance_clustering_eq_sum (n : Nat) (adj : Adj) (adm : MatK K) (i : Nat) :
+    localClustering n adj adm i
+      = if degree n adj i = 1 then 0
+        else (∑ j ∈ range n, ∑ k ∈ range n, adm i j * adm i k * adm j k)
+              / (admDegree n adm i * ((degree n adj i : K) - 1)) :=
+  localClustering_eq_sum n adj adm i
+
+/-- clustering commutes with field homomorphisms (complex conjugation of *all* admittances
+conjugates the coefficient; an implementation conjugating one factor only cannot satisfy this
+together with `impedance_clustering_eq_sum`) -/
+theorem impedance_clustering_map {K' : Type} [Field K'] (φ : K →+* K') (n : Nat) (adj : Adj)
+    (adm : MatK K) (i : Nat) :
+    φ (localClustering n adj adm i) = localClustering n adj (fun a b => φ (adm a b)) i :=
+  localClustering_map φ n adj adm i
+
+theorem impedance_admDegree_eq_sum (n : Nat) (adm : MatK K) (i : Nat)
+    (hsym : ∀ k, k < n → adm k i = adm i k) :
+    admDegree n adm i = ∑ j ∈ range n, adm i j :=
+  admDegree_eq_sum n adm i hsym
+
+theorem impedance_globalClustering_eq_mean (n : Nat) (adj : Adj) (adm : MatK K) :
+    globalClustering n adj adm = (∑ i ∈ range n, localClustering n adj adm i) / (n : K) :=
+  globalClustering_eq_mean n adj adm
+
+/-- the field model at `K = ℚ` *is* the rational model, whose arithmetic is tied to the source text
+(`*_matches_source`); the same polymorphic code is what the driver runs at `ℚ(i)` -/
+theorem fieldModel_at_rat (n : Nat) (adj : Adj) (res adm R : Nat → Nat → Rat) (i a b : Nat) :
+    admittance (K := Rat) adj res = Pyunicorn.Circuit.admittance adj res
+      ∧ laplacian (K := Rat) n adm = Pyunicorn.Circuit.laplacian n adm
+      ∧ effRes (K := Rat) R a b = Pyunicorn.Circuit.effRes R a b
+      ∧ admDegree (K := Rat) n adm i = Pyunicorn.Circuit.admDegree n adm i
+      ∧ localClustering (K := Rat) n adj adm i = Pyunicorn.Circuit.localClustering n adj adm i :=
+  ⟨rfl, rfl, rfl, rfl, rfl⟩
+
+/-- **effective impedance = potential drop for every generalised inverse**, on the model -/
+theorem impedance_model_eq_potential_drop (n : Nat) (adj : Adj) (res R : MatK K) (v : VecK K)
+    (a b : Nat) (ha : a < n) (hb : b < n) (hN : IsNetworkK n adj res)
+    (hg : IsGinv n (laplacian n (admittance adj res)) R)
+    (hv : IsPot n (laplacian n (admittance adj res)) v a b) : effRes R a b = v a - v b :=
+  effRes_eq_drop n _ R v a b ha hb (lap_symm (adm_symm hN)) hg hv
+
+/-- on a non-degenerate impedance network (some `R₀` with `L R₀ = I − J/N` exists; over ℂ:
+`rank L = N − 1`, e.g. all real parts positive) every generalised inverse gives the same value -/
+theorem impedance_ginv_unique (n : Nat) (adj : Adj) (res R R₀ : MatK K) (a b : Nat) (ha : a < n)
+    (hb : b < n) (hN : IsNetworkK n adj res)
+    (hg : IsGinv n (laplacian n (admittance adj res)) R)
+    (hp : IsProj n (laplacian n (admittance adj res)) R₀) : effRes R a b = effRes R₀ a b :=
+  effRes_ginv_unique n _ R R₀ a b ha hb (adm_symm hN) hg hp
+
+/-- **Foster's theorem over any field** in which `N ≠ 0` and `2 ≠ 0` (ℂ, ℚ(i)): for every
+generalised inverse of a non-degenerate impedance network, `Σ_{links} Z_eff · Y = N − 1`. -/
+theorem impedance_foster (n : Nat) (hn : ((n : Nat) : K) ≠ 0) (h2 : (2 : K) ≠ 0) (adj : Adj)
+    (res R R₀ : MatK K) (hN : IsNetworkK n adj res)
+    (hg : IsGinv n (laplacian n (admittance adj res)) R)
+    (hp : IsProj n (laplacian n (admittance adj res)) R₀) :
+    ∑ i ∈ range n, ∑ j ∈ range i, admittance adj res i j * effRes R i j = (n : K) - 1 := by
+  have hord := foster_ordered n hn _ R₀ (adm_symm hN) hp
+  have hsym : ∀ i j, i < n → j < n →
+      admittance adj res i j * effRes R₀ i j = admittance adj res j i * effRes R₀ j i := by
+    intro i j hi hj
+    rw [adm_symm hN i j hi hj, effRes_formula, effRes_formula]; ring
+  rw [sum_ordered_eq_two_lower _ n hsym (fun i _ => by simp [effRes])] at hord
+  have : ∑ i ∈ range n, ∑ j ∈ range i, admittance adj res i j * effRes R i j
+      = ∑ i ∈ range n, ∑ j ∈ range i, admittance adj res i j * effRes R₀ i j := by
+    refine Finset.sum_congr rfl fun i hi => Finset.sum_congr rfl fun j hj => ?_
+    have hi' := Finset.mem_range.mp hi
+    have hj' : j < n := by have := Finset.mem_range.mp hj; omega
+    rw [impedance_ginv_unique n adj res R R₀ i j hi' hj' hN hg hp]
+  rw [this]
+  exact mul_left_cancel₀ h2 hord
+
+/-- **Series law over any field**, chains of any length: impedances add. -/
+theorem impedance_series_chain (n : Nat) (res R : MatK K) (a b : Nat) (hab : a ≤ b) (hb : b < n)
+    (hN : IsNetworkK n chainAdj res) (hg : IsGinv n (laplacian n (admittance chainAdj res)) R) :
+    effRes R a b = ∑ k ∈ Finset.Ico a b, res k (k + 1) := by
+  rw [effRes_eq_drop n _ R _ a b (by omega) hb (lap_symm (adm_symm hN)) hg
+    (chain_isPot n res a b hab hb hN)]
+  exact chainPot_drop res a b hab
+
+/-- **Parallel law over any field**: `Z₁ ∥ (Z₂ + Z₃) = Z₁ (Z₂ + Z₃) / (Z₁ + Z₂ + Z₃)`, provided the
+loop impedance `Z₁ + Z₂ + Z₃` does not vanish (over ℂ it can: resonance). -/
+theorem impedance_parallel (res R : MatK K) (h01 : res 0 1 ≠ 0) (h02 : res 0 2 ≠ 0)
+    (h21 : res 2 1 ≠ 0) (hsum : res 0 1 + res 0 2 + res 2 1 ≠ 0) (hs : SymmOn 3 res)
+    (hg : IsGinv 3 (laplacian 3 (admittance triAdj res)) R) :
+    effRes R 0 1 = res 0 1 * (res 0 2 + res 2 1) / (res 0 1 + res 0 2 + res 2 1) := by
+  have hsA : SymmOn 3 (admittance triAdj res) := by
+    intro i j hi hj
+    have e : triAdj i j = triAdj j i := by simp only [triAdj, bne_comm]
+    unfold admittance
+    rw [e, hs i j hi hj]
+  have hv := parallel_pot res h01 h02 h21 hsum (hs 1 0 (by omega) (by omega))
+    (hs 2 0 (by omega) (by omega)) (hs 1 2 (by omega) (by omega))
+  rw [effRes_eq_drop 3 _ R _ 0 1 (by omega) (by omega) (lap_symm hsA) hg hv]
+  simp
+
+/-- **Linear scaling over any field** on the model: all impedances `× k` (a complex factor). -/
+theorem impedance_model_scaling (n : Nat) (adj : Adj) (res R R' : MatK K) (v : VecK K) (k : K)
+    (hk : k ≠ 0) (a b : Nat) (ha : a < n) (hb : b < n) (hN : IsNetworkK n adj res)
+    (hg : IsGinv n (laplacian n (admittance adj res)) R)
+    (hg' : IsGinv n (laplacian n (admittance adj fun i j => k * res i j)) R')
+    (hv : IsPot n (laplacian n (admittance adj res)) v a b) :
+    effRes R' a b = k * effRes R a b := by
+  have hL : laplacian n (admittance adj fun i j => k * res i j)
+      = fun i j => (1 / k) * laplacian n (admittance adj res) i j := by
+    funext i j
+    have : (admittance adj fun i j => k * res i j)
+        = fun i j => (1 / k) * admittance adj res i j := by
+      funext i j; exact admittance_scale adj res k i j
+    rw [this, laplacian_scale]
+  have hs := lap_symm (adm_symm hN)
+  have hk' : (1 / k) ≠ 0 := one_div_ne_zero hk
+  have hv' := pot_scale n _ v a b (1 / k) hk' hv
+  rw [← hL] at hv'
+  have hs' : SymmOn n (laplacian n (admittance adj fun i j => k * res i j)) := by
+    rw [hL]; intro i j hi hj; simp only; rw [hs i j hi hj]
+  rw [effRes_eq_drop n _ R' _ a b ha hb hs' hg' hv', effRes_eq_drop n _ R v a b ha hb hs hg hv]
+  field_simp
+
+/-- the executable pseudo-inverse of the field model is certified: returned only with
+`L R L = L` and `L R = I − J/N` checked exactly -/
+theorem pinvCertK_sound [DecidableEq K] {n : Nat} {L R : MatK K} (h : pinvCert n L = some R) :
+    IsGinv n L R ∧ IsProj n L R := by
+  unfold pinvCert at h
+  split at h
+  · cases h
+  · simp only at h
+    split at h
+    · next hc =>
+      cases h
+      simp only [Bool.and_eq_true] at hc
+      obtain ⟨hg, hp⟩ := hc
+      constructor
+      · intro i j hi hj
+        unfold isGinv at hg
+        rw [List.all_eq_true] at hg
+        have := hg i (List.mem_range.mpr hi)
+        rw [List.all_eq_true] at this
+        simpa using this j (List.mem_range.mpr hj)
+      · intro i j hi hj
+        unfold isProj at hp
+        rw [List.all_eq_true] at hp
+        have := hp i (List.mem_range.mpr hi)
+        rw [List.all_eq_true] at this
+        simpa using this j (List.mem_range.mpr hj)
+    · cases h
+
+/-! ### the executable instance: the driver's functions at `GRat = ℚ(i)` satisfy the field theorems
+
+`GRat.instField` (`Lemmas/CircuitGRat.lean`) is built from the core instances the compiled driver
+uses; the statements below name those core instances explicitly (`GRat.instAdd`, …), so they are
+about the code that runs, and are proved by the any-field theorems. -/
+section executable
+open GRat
+
+/-- the clustering the driver computes for a complex network is the unconjugated triple sum -/
+theorem driver_clustering_eq_sum (n : Nat) (adj : Adj) (adm : MatK GRat) (i : Nat) :
+    @localClustering GRat instZero instOne instAdd instSub instMul instDiv instNatCast n adj adm i
+      = if degree n adj i = 1 then 0
+        else (∑ j ∈ range n, ∑ k ∈ range n, adm i j * adm i k * adm j k)
+              / (@admDegree GRat instZero instAdd n adm i * ((degree n adj i : GRat) - 1)) :=
+  @impedance_clustering_eq_sum GRat GRat.instField n adj adm i
+
+/-- what the driver's certified pseudo-inverse of a complex Laplacian satisfies -/
+theorem driver_pinvCert_sound {n : Nat} {L R : MatK GRat}
+    (h : @pinvCert GRat instZero instOne instAdd instSub instMul instDiv instNatCast
+          instDecidableEqGRat n L = some R) :
+    IsGinv n L R ∧ IsProj n L R :=
+  @pinvCertK_sound GRat GRat.instField instDecidableEqGRat n L R h
+
+/-- **Foster's theorem for the driver's complex model**: whenever the driver certifies a
+pseudo-inverse for an impedance network with `N ≥ 1` nodes, the effective impedances it prints
+satisfy `Σ_{links} Z_eff Y = N − 1`. -/
+theorem driver_foster (n : Nat) (hn : 0 < n) (adj : Adj) (res R : MatK GRat)
+    (hN : IsNetworkK n adj res)
+    (h : @pinvCert GRat instZero instOne instAdd instSub instMul instDiv instNatCast
+          instDecidableEqGRat n
+          (@laplacian GRat instZero instAdd instSub n (@admittance GRat instZero instOne instDiv adj res))
+          = some R) :
+    ∑ i ∈ range n, ∑ j ∈ range i,
+        @admittance GRat instZero instOne instDiv adj res i j * @effRes GRat instZero instAdd instSub R i j
+      = (n : GRat) - 1 := by
+  obtain ⟨hg, hp⟩ := driver_pinvCert_sound h
+  have hn' : ((n : Nat) : GRat) ≠ 0 := by
+    intro e
+    have := congrArg GRat.re e
+    simp only [GRat.natCast_re, GRat.zero_re] at this
+    have : (n : Rat) = 0 := this
+    have : n = 0 := by exact_mod_cast this
+    omega
+  have h2 : (2 : GRat) ≠ 0 := by
+    intro e
+    have := congrArg GRat.re e
+    have h2' : (2 : GRat) = ((2 : Nat) : GRat) := by norm_cast
+    rw [h2'] at this
+    simp only [GRat.natCast_re, GRat.zero_re] at this
+    norm_num at this
+  exact @impedance_foster GRat GRat.instField n hn' h2 adj res R R hN hg hp
+
+/-- **series law for the driver's complex model** -/
+theorem driver_series_chain (n : Nat) (res R : MatK GRat) (a b : Nat) (hab : a ≤ b) (hb : b < n)
+    (hN : IsNetworkK n chainAdj res)
+    (h : @pinvCert GRat instZero instOne instAdd instSub instMul instDiv instNatCast
+          instDecidableEqGRat n
+          (@laplacian GRat instZero instAdd instSub n
+            (@admittance GRat instZero instOne instDiv chainAdj res)) = some R) :
+    @effRes GRat instZero instAdd instSub R a b = ∑ k ∈ Finset.Ico a b, res k (k + 1) :=
+  @impedance_series_chain GRat GRat.instField n res R a b hab hb hN (driver_pinvCert_sound h).1
+
+/-- non-vacuity at the executable instance: the chain `0 — 1 — 2` with impedance `1 + i` on both
+links; the driver's certificate exists (evaluated by the kernel) and the series law gives
+`2 + 2i` -/
+def zres : MatK GRat := fun _ _ => ⟨1, 1⟩
+
+private theorem zchain_network : IsNetworkK 3 chainAdj zres :=
+  ⟨fun i j _ _ => by simp [chainAdj, Bool.or_comm], fun _ _ _ _ => rfl,
+   fun _ _ _ _ _ h => by have := congrArg GRat.re h; simp [zres] at this⟩
+
+example : ∃ R, @pinvCert GRat instZero instOne instAdd instSub instMul instDiv instNatCast
+      instDecidableEqGRat 3 (@laplacian GRat instZero instAdd instSub 3
+        (@admittance GRat instZero instOne instDiv chainAdj zres)) = some R
+      ∧ @effRes GRat instZero instAdd instSub R 0 2 = zres 0 1 + zres 1 2 := by
+  obtain ⟨R, hR⟩ := Option.isSome_iff_exists.mp
+    (show (@pinvCert GRat instZero instOne instAdd instSub instMul instDiv instNatCast
+      instDecidableEqGRat 3 (@laplacian GRat instZero instAdd instSub 3
+        (@admittance GRat instZero instOne instDiv chainAdj zres))).isSome = true by decide +kernel)
+  refine ⟨R, hR, ?_⟩
+  rw [driver_series_chain 3 zres R 0 2 (by omega) (by omega) zchain_network hR]
+  simp [Finset.sum_range_succ]
+
+end executable
+
+/-! non-vacuity over a field that is not ordered-as-used: ℚ with explicit data — the two-link chain
+with impedances 2 and 3 and a generalised inverse obtained from the projection-type inverse -/
+example (R : MatK ℚ) (hN : IsNetworkK 3 chainAdj (fun _ _ => (2 : ℚ)))
+    (hg : IsGinv 3 (laplacian 3 (admittance chainAdj fun _ _ => (2 : ℚ))) R) :
+    effRes R 0 2 = 4 := by
+  rw [impedance_series_chain 3 _ R 0 2 (by omega) (by omega) hN hg]
+  simp; norm_num
+
+example : IsNetworkK 3 chainAdj (fun _ _ => (2 : ℚ)) :=
+  ⟨fun i j _ _ => by simp [chainAdj, Bool.or_comm], fun _ _ _ _ => rfl, fun _ _ _ _ _ => by norm_num⟩
+
+end Pyunicorn.CircuitK
